@@ -80,6 +80,22 @@ def cases(O):
         import jsgen
         out.append({"id": "c05opt-%d" % i, "config": option_variants(rng),
                     "calls": [{"code": jsgen.program("%s/c05opt" % O.seed, i), "file": "o.js"}], "opts": {}})
+    # the two operator names as entries with the operator flag false or omitted (then they are ordinary method names), listed twice with
+    # different flags / replacement names, in every order -- against a program that has the operators and methods of those very names
+    prog = "function f(a, b, o) { const s = a + b; const t = `Hello ${a}`; o.x += b; return o.tplOperator(s) + o.plusOperator(t, a).trim(); }"
+    ent = {"P+": {"src": "plusOperator", "operator": True}, "P-": {"src": "plusOperator"}, "Pf": {"src": "plusOperator", "operator": False, "dst": "plus"},
+           "T+": {"src": "tplOperator", "operator": True}, "T-": {"src": "tplOperator"}, "Tf": {"src": "tplOperator", "operator": False, "dst": "tpl"},
+           "Td": {"src": "tplOperator", "operator": True, "dst": "tplRenamed"}, "m": {"src": "trim", "dst": "stringTrim"}, "mo": {"src": "trim", "operator": True}}
+    import itertools
+    k = 0
+    for r in (1, 2, 3):
+        for combo in itertools.permutations(sorted(ent), r):
+            if r == 3 and (k % 7):      # a seventh of the triples
+                k += 1
+                continue
+            k += 1
+            out.append({"id": "c05ops-%s" % "".join(combo), "config": vlib.default_config(csiMethods=[dict(ent[e]) for e in combo]),
+                        "calls": [{"code": prog, "file": "ops.js"}], "opts": {}})
     out.append({"id": "c05-null-config", "config": None, "calls": [{"code": "function f(a,b){return a+b.trim();}", "file": "n.js"}], "opts": {}})
     out.append({"id": "c05-bad-config", "config": {"csiMethods": "nonsense"}, "calls": [{"code": "function f(a,b){return a+b.trim();}", "file": "n.js"}], "opts": {}})
     out += E.finding_cases("C05")
